@@ -1091,6 +1091,8 @@ type responseWriter struct {
 	endWritten bool
 	respMeta   *responseMeta
 	err        error
+	// receives header changes made after the end was written; see Header
+	lateHeaders http.Header
 	// wraps op.writer; initialized after headers are written
 	w io.WriteCloser
 	// may be used in place of op.writer for protocols that must see
@@ -1100,6 +1102,12 @@ type responseWriter struct {
 }
 
 func (w *responseWriter) Header() http.Header {
+	if w.lateHeaders != nil {
+		// The end of the RPC has already been sent to the client. Whatever the
+		// handler still sets (e.g. its own status trailers) must not reach the
+		// underlying writer, which would emit it as additional HTTP trailers.
+		return w.lateHeaders
+	}
 	return w.delegate.Header()
 }
 
@@ -1305,6 +1313,7 @@ func (w *responseWriter) reportEnd(end *responseEnd) {
 	w.flusher.Flush()
 	// response is done
 	w.err = errFinalDataAlreadyWritten
+	w.lateHeaders = make(http.Header)
 }
 
 func (w *responseWriter) flushHeaders() {
